@@ -149,6 +149,9 @@ def signature(c, impl, v):
     tg = c.meta.get('tags', {})
     t = c.meta.get('type')
     body = c.body()
+    if op == 'argsort' and ((t is not None and G.has_kind(t, 'union') and G.has_kind(t, 'opt')) or
+                            (t is None and '(un ' in body and any(h in body for h in ('(ixo ', '(bym ', '(bim ', '(unm ')))):
+        return 'argsort-option-over-mergeable-union'
     if tg.get('axis') is not None and tg['axis'] < 0 and op != 'reduce':
         if (G.has_rec_under_list(t) if t is not None else ('(rec ' in body and body.index('(rec ') > body.index(' (') + 2)):
             return 'negaxis-record-under-list'
